@@ -202,6 +202,9 @@ def run(repo, rep, tier):  # noqa: F811 -- round-5 shape rules appended to the r
     if getattr(rep, "borrowed", False):
         return
     from ..core import round5 as _r5
+    from ..core.report import Only as _O5
+    from . import c15 as _c15b
+    _c15b._aliases(repo, _O5(rep, {"R15.7"}))
     _r5.annotation_scans(repo, rep, "R09.8")
     rep.floor("R09.8", 20)
     _r5.metadatas_contract(repo, rep, "R09.9")
@@ -210,3 +213,6 @@ def run(repo, rep, tier):  # noqa: F811 -- round-5 shape rules appended to the r
 _ADDR5B = ' R09.8: isinstance tests for the Annotated markers (Alias, Discriminator, JSON Schema constraints) are applied to the variable of a scan over the whole metadata sequence, so a marker is honoured at any position. R09.9: CodeBuilder.metadatas is exactly {name: Field.metadata}; no option is injected before __get_field_alias decides the precedence.'
 EXPLANATION += _ADDR5B
 LEVEL_TEXT += _ADDR5B
+_ADDR5D = ' Borrowed: R15.7 (generated aliases of nested classes are module-qualified, so each nested class is read under its own key rules).'
+EXPLANATION += _ADDR5D
+LEVEL_TEXT += _ADDR5D
